@@ -235,8 +235,7 @@ def balanced(prog: Program, rep: Report):
                line=fa.line(init[0][0]) if init else fa.line(wn), clause="C13.4")
     # appends inside the while body
     apps = [(n, c) for n, c in fa.calls_named("append") if n in body]
-    decs = [(n, st) for n in body for st in [cfg.nodes[n].ast] if cfg.nodes[n].kind == "stmt"
-            and isinstance(st, ast.AugAssign) and isinstance(st.target, ast.Name) and st.target.id == rem]
+    decs = [(n, op, e) for n, op, e in fa.updates(rem, ops=(ast.Sub,)) if n in body]
     if len(apps) != 1 or len(decs) != 1:
         rep.unk("G8.balanced-progress", fi, "body", "while body of unrecognised shape", clause="C13.4")
         return
@@ -255,9 +254,9 @@ def balanced(prog: Program, rep: Report):
                "appends pool[perm[:remaining]] with perm over len(pool) of the same pool",
                "the appended indices are not pool[perm[:remaining]] with a permutation of the same pool's length (indices of "
                "another class, out-of-range positions, or more than the remaining count)", line=fa.line(an), clause="C13.4")
-    dn, dst = decs[0]
-    dt = fa.sym.term(dst.value, dn)
-    ok_dec = isinstance(dst.op, ast.Sub) and dt[0] == "call" and dt[1] == ("global", "len") and taken is not None and (
+    dn, dop, dexpr = decs[0]
+    dt = fa.sym.term(dexpr, dn)
+    ok_dec = dop is ast.Sub and dt[0] == "call" and dt[1] == ("global", "len") and taken is not None and (
         dt[2][0] == taken or _strip_versions(dt[2][0]) == _strip_versions(taken))
     rep.decide(ok_dec and cfg.reachable(an, dn, avoid={wn}) or (ok_dec and cfg.reachable(dn, an, avoid={wn})),
                "G8.balanced-progress", fi, "decrement",
